@@ -138,7 +138,7 @@ def spec(prop, tier):
         return elem_runs(["F1", "F3", "F4", "V1", "V3", "V5", "M2", "M3"], ["AE", "NP", "PP"], tier, 4)
     if prop == "C17":
         lists = ["F1", "F3", "V1", "V3"]
-        allocs = ["AE", "NP"] if q else ["AE", "NP", "PP"]
+        allocs = ["AE", "NP", "PP"]
         runs = []
         for r in pair_runs(lists, allocs, tier, 4 if q else 5) + elem_runs(lists, allocs, tier, 2 if q else 3):
             r["faults"] = 1
